@@ -1048,7 +1048,7 @@ class ASTGroupingSets(ASTBase):
         """返回语法节点的 SQL 源码"""
         grouping_str_list = []
         for grouping in self.grouping_list:
-            if len(grouping) > 1:
+            if len(grouping) != 1:
                 grouping_str_list.append("(" + ", ".join(column.source(sql_type) for column in grouping) + ")")
             else:
                 grouping_str_list.append(grouping[0].source(sql_type))
